@@ -56,7 +56,8 @@ func (e *env) runPointTable(ts TableSpec, idx int) {
 			} else {
 				c.Outcome("point:agree-some-visible")
 			}
-			if n++; e.sample && n == 41 {
+			if n++; e.sample && n > 41 && hi-lo >= 1 && hi-lo < len(es) {
+				e.sample = false
 				c.Sample(map[string]any{"case": cs.String(), "visible": visibleString(es[lo:hi]), "iterator_calls": e.trans})
 			}
 		}
